@@ -30,7 +30,7 @@ def _riders():
 
 
 def _workloads(tier):
-    base = {"quick": [("H", 90), ("R", 120)], "thorough": [("H", 1500), ("R", 2000)]}[tier]
+    base = {"quick": [("H", 90), ("R", 120), ("RD", 90)], "thorough": [("H", 1500), ("R", 2000), ("RD", 1200)]}[tier]
     return base + [(f"P:{r}", _RIDE_CASES[tier][r]) for r in _riders()]
 
 
@@ -192,6 +192,8 @@ def gen_case(seed, idx, tier, workload="H"):
         return gen_history(rng)
     if workload == "R":
         return gen_repr(rng)
+    if workload == "RD":
+        return gen_repr_data(rng)
     if workload.startswith("P:"):
         mod = importlib.import_module("rv.props." + workload[2:])
         return {"rider": workload[2:], "inner": mod.gen_case(seed + 7919, idx, tier)}
@@ -211,6 +213,8 @@ def run_case(spec, ctx):
         return run_rider(spec, ctx)
     if spec["w"] == "H":
         return run_history(spec, ctx)
+    if spec["w"] == "RD":
+        return run_repr_data(spec, ctx)
     return run_repr(spec, ctx)
 
 
@@ -250,7 +254,13 @@ def gen_history(rng):
     qs = []
     for _ in range(rng.randint(5, 25)):
         if qs and rng.random() < 0.2:
-            qs.append(dict(rng.choice(qs)))        # repeat an earlier question verbatim
+            rq = dict(rng.choice(qs))              # repeat an earlier question verbatim ...
+            if rq.get("virtual") and rng.random() < 0.5:
+                # ... or the same question shape with other likelihood values (a cache keyed too coarsely
+                # by variables / evidence would hand back the earlier answer)
+                rq["virtual"] = [dict(d, vec=[round(min(1.0, max(0.02, 1.05 - x)), 3) for x in d["vec"]])
+                                 for d in rq["virtual"]]
+            qs.append(rq)
             continue
         eng = rng.choice(["ve", "ve", "ve", "bp", "bp", "ci", "samp"])
         query, ev, virt = C01.gen_query(rng, bn, nodes, J, allow_virtual=rng.random() < 0.4, max_q=2, max_e=2)
@@ -601,3 +611,145 @@ def run_repr(spec, ctx):
                 ctx.ok()
             if eng_name == "ve" and qi == 0:
                 ctx.xcell["r0"] = [val for _, val in sorted(((repr(sorted(k, key=repr)), v) for k, v in na.items()))]
+
+
+# ------------------------------------------------------------------ RD : renamings / insertion order, data-driven
+def gen_repr_data(rng):
+    """A data set sampled from a random BN, a DAG to fit on it, and a re-expression of both: renamed columns,
+    relabelled states, shuffled column / node / edge insertion order."""
+    import itertools
+    truth = gen.rand_bn_spec(rng, n_range=(3, 5), cards=(2, 2, 3), kind="id", max_joint=243, min_card=2,
+                             names=["zeta", "alpha", "mid", "beta", "omega"])
+    nodes = truth["nodes"]
+    order = gen.topo_order(nodes, [tuple(e) for e in truth["edges"]])
+    rows = []
+    for _ in range(rng.randint(40, 160)):
+        a = {}
+        for v in order:
+            c = truth["cpds"][v]
+            col = 0
+            for x in c["parents"]:
+                col = col * truth["card"][x] + a[x]
+            r, acc = rng.random(), 0.0
+            k = 0
+            for i in range(truth["card"][v]):
+                acc += c["table"][i][col]
+                if r <= acc:
+                    k = i
+                    break
+            else:
+                k = truth["card"][v] - 1
+            a[v] = k
+        rows.append([a[v] for v in nodes])
+    # the DAG that is fitted: the truth's edges plus/minus one edge, parents in NON-sorted insertion order
+    edges = [tuple(e) for e in truth["edges"]]
+    cand = [(u, v) for u, v in itertools.permutations(nodes, 2) if (u, v) not in edges and (v, u) not in edges]
+    rng.shuffle(cand)
+    for e in cand[:2]:
+        if oracle.is_acyclic(nodes, edges + [e]):
+            edges.append(e)
+    edges.sort(key=lambda e: (e[1], e[0]), reverse=True)     # reverse-sorted parents per child
+    perm = list(range(len(nodes)))
+    rng.shuffle(perm)
+    new_names = {v: f"c{perm[i]}_{'x' * (i % 2)}" for i, v in enumerate(nodes)}
+    relabel = {}
+    for v in nodes:
+        k = truth["card"][v]
+        labs = [10 * (k - j) + 1 for j in range(k)] if rng.random() < 0.5 else [f"s{(j + 1) % k}{v[0]}" for j in range(k)]
+        relabel[v] = labs
+    return {"w": "RD", "nodes": nodes, "card": truth["card"], "rows": rows, "edges": [list(e) for e in edges],
+            "names": new_names, "relabel": relabel, "shuffle_seed": rng.randrange(10 ** 6),
+            "ess": rng.choice([1, 5, 10])}
+
+
+def run_repr_data(spec, ctx):
+    import random
+    import pandas as pd
+    from pgmpy.estimators import BayesianEstimator, BDeuScore, BicScore, K2Score, MaximumLikelihoodEstimator
+    from pgmpy.models import BayesianNetwork
+    from rv.build import to_np
+    nodes, rows, names, relabel = spec["nodes"], spec["rows"], spec["names"], spec["relabel"]
+    edges = [tuple(e) for e in spec["edges"]]
+    ctx.nontrivial = len(edges) >= 1 and len(rows) >= 20
+    rng = random.Random(spec["shuffle_seed"])
+    df_a = pd.DataFrame(rows, columns=nodes)
+    cols_b = nodes[:]
+    rng.shuffle(cols_b)
+    df_b = pd.DataFrame({names[v]: pd.Series([relabel[v][r[nodes.index(v)]] for r in rows], dtype=object)
+                         for v in cols_b})
+    if rng.random() < 0.5:
+        df_b = df_b.sample(frac=1.0, random_state=spec["shuffle_seed"] % 1000).reset_index(drop=True)
+    sn_a = {v: list(range(spec["card"][v])) for v in nodes}
+    sn_b = {names[v]: list(relabel[v]) for v in nodes}
+    edges_b = [(names[u], names[v]) for u, v in edges]
+    rng.shuffle(edges_b)
+    nodes_b = [names[v] for v in nodes]
+    rng.shuffle(nodes_b)
+
+    def model(ns, es):
+        m = BayesianNetwork()
+        m.add_nodes_from(ns)
+        m.add_edges_from(es)
+        return m
+
+    def named(cpd, back=None):
+        out = {}
+        for k, val in oracle.factor_named(cpd, to_np).items():
+            if back is not None:
+                k = frozenset((back[0][v], back[1][back[0][v]][s]) for v, s in k)
+            out[k] = val
+        return out
+    inv_name = {names[v]: v for v in nodes}
+    inv_state = {v: {relabel[v][i]: i for i in range(spec["card"][v])} for v in nodes}
+
+    for est_name, kw in (("mle", {}), ("bdeu", {"prior_type": "BDeu", "equivalent_sample_size": spec["ess"]})):
+        Est = MaximumLikelihoodEstimator if est_name == "mle" else BayesianEstimator
+        ma, mb = model(nodes, edges), model(nodes_b, edges_b)
+        ra = ctx.call(lambda: ma.fit(df_a, estimator=Est, state_names=sn_a, **kw))
+        if ctx.failed(ra):
+            ctx.note(f"original-fit-failed:{est_name}:{ra.type}")
+            continue
+        rb = ctx.call(lambda: mb.fit(df_b, estimator=Est, state_names=sn_b, **kw))
+        if ctx.failed(rb):
+            ctx.violation(f"c16:renamed-fit-failed:{est_name}:{rb.type}@{rb.where}",
+                          f"{est_name} fit succeeds on the original frame/model but raises on the renamed, "
+                          f"re-ordered one: {rb!r}", names=names)
+            continue
+        for v in nodes:
+            try:
+                a = named(ma.get_cpds(v))
+                b = named(mb.get_cpds(names[v]), back=(inv_name, inv_state))
+            except Exception as e:
+                ctx.violation("c16:renamed-fit-unreadable", f"{est_name}: CPD of {v!r}: {type(e).__name__}: {e}")
+                continue
+            diff = oracle.named_close(b, a, atol=1e-9, rtol=1e-9)
+            if diff:
+                ctx.violation(f"c16:representation-changes-fit:{est_name}",
+                              f"{est_name} CPD of {v!r} differs after renaming columns / relabelling states / "
+                              f"re-ordering insertion: {diff}", names=names, edges=edges)
+            else:
+                ctx.ok()
+    # scores of every family under renaming and parent-order permutation
+    par = {v: [u for (u, w) in edges if w == v] for v in nodes}
+    for Score, skw in ((K2Score, {}), (BicScore, {}), (BDeuScore, {"equivalent_sample_size": spec["ess"]})):
+        sa = ctx.call(lambda: Score(df_a, state_names=sn_a, **skw))
+        sb = ctx.call(lambda: Score(df_b, state_names=sn_b, **skw))
+        if ctx.failed(sa) or ctx.failed(sb):
+            ctx.note(f"scorer-construction-failed:{Score.__name__}")
+            continue
+        for v in nodes:
+            pa = par[v]
+            pb = [names[u] for u in pa]
+            rng.shuffle(pb)
+            xa = ctx.call(sa.local_score, v, list(pa))
+            xb = ctx.call(sb.local_score, names[v], pb)
+            if ctx.failed(xa):
+                continue
+            if ctx.failed(xb):
+                ctx.violation(f"c16:renamed-score-failed:{Score.__name__}:{xb.type}@{xb.where}",
+                              f"{Score.__name__}.local_score raises only on the renamed frame: {xb!r}")
+                continue
+            ctx.expect(abs(float(xa) - float(xb)) <= 1e-9 + 1e-9 * abs(float(xa)),
+                       f"c16:representation-changes-score:{Score.__name__}",
+                       f"{Score.__name__}.local_score({v!r}, {pa!r}) = {float(xa)!r} but {float(xb)!r} after renaming / "
+                       f"relabelling / parent-order permutation")
